@@ -189,7 +189,7 @@ func cmdCheck(args []string) int {
 	if !*keep {
 		defer os.RemoveAll(workDir)
 	}
-	quickMs, slowMs := 1500, 10000
+	quickMs, slowMs := 1500, 20000
 	if *tier == "thorough" {
 		quickMs, slowMs = 10000, 60000
 	}
